@@ -98,6 +98,7 @@ func goCtx() pongo2.Context {
 		"nilv": nil,
 		"k":    "a",
 		"ki":   1,
+		"kneg": -1, "kneg2": int64(-2),
 		"kbad": 3.5,
 		"f0":   func() string { return "f0!" },
 		"f2":   func(a int, b string) string { return fmt.Sprintf("%d-%s", a, b) },
@@ -335,6 +336,7 @@ func modelCtx() map[string]*Node {
 		"nilv": nNil(),
 		"k":    nStr("a"),
 		"ki":   nInt(1),
+		"kneg": nInt(-1), "kneg2": nInt(-2),
 		"kbad": {K: "float", P: "3.500000"},
 		"f0":   fn(nil, false, func(a []*Node) (*Node, bool) { return nStr("f0!"), false }),
 		"f2":   fn([]string{"int", "str"}, false, func(a []*Node) (*Node, bool) { return nStr(a[0].P + "-" + a[1].P), false }),
@@ -839,7 +841,11 @@ func (c *TagBoundCase) Exec(t *eng.T) {
 		"an3":  struct{ Name int }{33},
 		"row1": localRow1(), "row2": localRow2(),
 		// functions whose second result is a concrete error type: a nil pointer of it is "no error"
-		"fte":  func() (string, *codeErr) { return "ok", nil },
+		// *pongo2.Value behind an interface inside a container, with further steps behind it
+		"vitems": []any{1, pongo2.AsValue(map[string]any{"n": 7, "l": []int{4, 5}})},
+		"vrow":   map[string]any{"cell": pongo2.AsValue(struct{ N int }{8})},
+		"vbox":   struct{ Payload any }{pongo2.AsValue([]string{"p0", "p1"})},
+		"fte":    func() (string, *codeErr) { return "ok", nil },
 		"ftef": func() (string, *codeErr) { return "", &codeErr{Code: 7} }}
 	out := px.Render(nil, c.Src, ctx)
 	t.Outcome(out.String())
@@ -953,7 +959,7 @@ func finalSubs() []Step {
 	return []Step{
 		{Kind: "sub-str", S: "a"}, {Kind: "sub-str", S: "k"}, {Kind: "sub-str", S: "zz"}, {Kind: "sub-str", S: "Name"}, {Kind: "sub-str", S: "secret"}, {Kind: "sub-str", S: "Size"}, {Kind: "sub-str", S: "Upper"}, {Kind: "sub-str", S: "Fetch"},
 		{Kind: "sub-int", I: 0}, {Kind: "sub-int", I: 1}, {Kind: "sub-int", I: 9},
-		{Kind: "sub-var", S: "k"}, {Kind: "sub-var", S: "ki"}, {Kind: "sub-var", S: "nilv"}, {Kind: "sub-var", S: "kbad"}, {Kind: "sub-var", S: "missing"},
+		{Kind: "sub-var", S: "k"}, {Kind: "sub-var", S: "ki"}, {Kind: "sub-var", S: "kneg"}, {Kind: "sub-var", S: "kneg2"}, {Kind: "sub-var", S: "nilv"}, {Kind: "sub-var", S: "kbad"}, {Kind: "sub-var", S: "missing"},
 	}
 }
 
@@ -1058,6 +1064,7 @@ func run(r *eng.Runner) {
 		// different struct types with fields of the same name, one after the other in ONE rendering
 		{`{{ an1.Name }}|{{ an2.Name }}|{{ an3.Name }}|{{ row1.Name }}|{{ row2.Name }}|{{ an2.ID }}|{{ an1.ID }}|{{ row2.ID }}|{{ row1.ID }}|{{ row1.By }}|{{ row2.By }}`, "n1|n2|33|r1|r2|2|1|22|11||b2"},
 		{`{{ row2["Name"] }}|{{ row1["Name"] }}|{{ an3["Name"] }}|{{ an2["Name"] }}|{{ an1["Name"] }}|{{ an3.ID }}|{{ an1.ID }}`, "r2|r1|33|n2|n1||1"},
+		{`{{ vitems.1.n }}|{{ vitems.1.l.1 }}|{{ vrow.cell.N }}|{{ vbox.Payload.1 }}|{{ vitems.1.l|length }}|{{ vitems.1["n"] }}`, "7|5|8|p1|2|7"},
 		{`{{ fte() }}|{{ fte()|upper }}`, "ok|OK"}, {`{{ ftef() }}`, "ERROR"},
 		// an argument list written after an argument list is not more arguments for the first call
 		{`{{ add2(1)(2) }}`, "ERROR"}, {`{{ add2(1, 2) }}`, "3"}, {`{{ one(1)(2) }}`, "ERROR"}, {`{{ add2()(1, 2) }}`, "ERROR"}, {`{{ fvar()(lp) }}`, "ERROR"},
